@@ -118,12 +118,29 @@ def decode_params(p, frame, tol, want):
     return ('reports other ' + ','.join(bad)) if bad else None
 
 
+def near_outside(p, e, tol):
+    """A duration of the sign of e that is clearly outside the tolerance window of e at `tol` (off by tol + max(6, tol) percent)
+    and outside the window of every other legal or merged duration; None if there is none."""
+    off = tol + max(6, tol)
+    legal = [abs(x) for x in legal_durations(p) if (x > 0) == (e > 0) and x != 0]
+    for sign in (1, -1):
+        v = int(abs(e) * (100 + sign * off) / 100.0)
+        if v <= 0:
+            continue
+        if all(abs(v - x) * 100 > x * (tol + 3) for x in legal):
+            return v if e > 0 else -v
+    return None
+
+
 def search(ctx, protos, per):
     hits = {}
     rng = ctx.rng
-    for p in protos:
+    for pi, p in enumerate(protos):
         name = p['name']
         period = engine.period_of(p)
+        # the order in which tolerances are used alternates between protocols: a decoder must honour the tolerance configured
+        # on the instance whatever tolerance was in force for earlier decodes in the process
+        order = TOLS if pi % 2 else tuple(reversed(TOLS))
         for a in gen_inputs.param_assignments(p, rng, per):
             c, e = engine.fresh_encode(p, a)
             if c is None:
@@ -134,7 +151,7 @@ def search(ctx, protos, per):
             f = list(frames[0])
             if decode_params(p, f, 20, a) is not None:
                 continue        # not decodable even exactly: C01's finding, not C04's
-            for tol in TOLS:
+            for tol in order:
                 for pattern in ('long', 'short', 'alt', 'random'):
                     fp = gen_inputs.perturb(f, tol, pattern, rng, period)
                     ctx.count_eval(key=(name, tuple(sorted(a.items())), tol, pattern))
@@ -149,10 +166,10 @@ def search(ctx, protos, per):
                 break
             else:
                 ctx.passed(name, dict(a, tol=20, pattern_long=False))
-            # rejection of a far burst in the data section
             nli = len(p['lead_in'])
             nlo = len(p['lead_out'])
             if len(f) - nli - nlo >= 2:
+                # rejection of a far burst in the data section
                 i = rng.randrange(nli, len(f) - max(nlo, 1))
                 v = far_value(p, 1 if f[i] > 0 else -1, 20, rng)
                 if v is not None:
@@ -164,6 +181,25 @@ def search(ctx, protos, per):
                         hits[name] = True
                         ctx.report(name, 'frame with a far-off burst decoded as the original', dict(a, position=i),
                                    dict(protocol=name, params=a, frame=g, position=i, burst=v, original=f[i]))
+                # rejection at a SMALL configured tolerance of a burst that a larger tolerance would accept
+                for tol in order:
+                    if tol == 20:
+                        continue
+                    i = rng.randrange(nli, len(f) - max(nlo, 1))
+                    v = near_outside(p, f[i], tol)
+                    if v is None:
+                        continue
+                    g = list(f)
+                    g[i] = v
+                    if period is not None and len(g) > 1 and g[-1] < 0:
+                        g[-1] = -(period - sum(abs(x) for x in g[:-1])) if period > sum(abs(x) for x in g[:-1]) else g[-1]
+                    r = decode_params(p, g, tol, a)
+                    ctx.count_eval(key=(name, tuple(sorted(a.items())), 'near', tol, i))
+                    if r is None:
+                        hits[name] = True
+                        ctx.report(name, 'burst clearly outside the configured tolerance decoded as the original',
+                                   dict(a, tol=tol, position=i),
+                                   dict(protocol=name, params=a, tolerance=tol, frame=g, position=i, burst=v, original=f[i]))
     return hits
 
 
@@ -189,6 +225,14 @@ def run(ctx):
             for tol in TOLS:
                 pat = ctx.rng.choice(['long', 'short', 'alt', 'random'])
                 items.append((p, gen_inputs.perturb(f, tol, pat, ctx.rng, engine.period_of(p)), tol, False, pat))
+            for tol in (5, 10):
+                if len(f) > len(p['lead_in']) + len(p['lead_out']) + 2:
+                    i = ctx.rng.randrange(len(p['lead_in']), len(f) - max(len(p['lead_out']), 1))
+                    v2 = near_outside(p, f[i], tol)
+                    if v2 is not None:
+                        g = list(f)
+                        g[i] = v2
+                        items.append((p, g, tol, False, 'near'))
             v = far_value(p, 1, 20, ctx.rng)
             if v is not None and len(f) > len(p['lead_in']) + 2:
                 g = list(f)
